@@ -46,6 +46,7 @@ import Restful.Spec.Slash
 import Restful.Lemmas.StateShape
 import Restful.Lemmas.TieImpPath
 import Restful.Lemmas.TieImpMatch
+import Restful.Lemmas.TieImpAllowed
 namespace Restful
 namespace Props
 variable (E : ReEnv)
@@ -303,3 +304,4 @@ end Restful
 -- translation (tools/goimp, Gen/Imp.lean, regenerated on every run):
 -- also: Restful.TieImp.T2.tokenize_path
 -- also: Restful.TieImp.match_tokens
+-- also: Restful.TieImp.compute_allowed_methods
